@@ -10,7 +10,7 @@ RULE = (
     "floats bit-exact; (b) Hy's documented extensions -- commas, repeated and trailing separators, separators after '.', 'e', radix "
     "prefix, leading zeros, NaN/Inf/-Inf, a+bj forms: expected value computed by construction (separators removed, evaluated by "
     "Python); (c) near misses -- leading separator, wrong-case nan/inf, bare j, 0x, 1e, 0b2, digits with trailing letters, lone signs, "
-    "doubled signs: must read as exactly one Symbol with that text; interior-dot near misses (1.2.3, 0x1.5) must be a dotted form or "
+    "doubled signs, zeros in front of a radix prefix (00x10, 0_0b1): must read as exactly one Symbol with that text; interior-dot near misses (1.2.3, 0x1.5) must be a dotted form or "
     "a LexException, never a number. Non-trivial = class (b) or (c); distinct by text"
 )
 ASSUMPTIONS = ["CPython's ast.literal_eval/int/float/complex define the value of a Python numeric literal", "ASCII digits only (the docs do not discuss other Unicode digits)"]
@@ -142,8 +142,11 @@ def strategies():
     near = word.map(lambda t: dict(text=t, expect=["symbol"], cls="near-miss"))
     genword = st.builds(lambda a, b: a + b, st.one_of(digits, hexint, floatlit.filter(lambda s: "." not in s)), st.sampled_from(["x", "g", "q", "ee", "e+", "jj", "j1", "k", "L", "_x"])).filter(
         lambda t: not _is_number(t)).map(lambda t: dict(text=t, expect=["symbol"], cls="near-miss"))
+    # leading zeros are an extension for decimal integers only: zeros in front of a radix prefix do not make a number
+    zradix = st.builds(lambda sg, z, r: sg + z + r, sign, st.sampled_from(["0", "00", "000", "0_", "0,", "0_0", "00_"]), st.one_of(hexint, octint, binint)).filter(
+        lambda t: not _is_number(t)).map(lambda t: dict(text=t, expect=["symbol"], cls="near-miss:zeros-before-radix-prefix"))
     dotted = st.sampled_from(["1.2.3", "0x1.5", "1..2", "1.2e3.4", "1.a", "a.1", "1.2j.3", "1_0.2_0.3", ".5.5", "1.e5.0"]).map(lambda t: dict(text=t, expect=["dotted"], cls="near-miss:dotted"))
-    return st.one_of(python, python, extended(), extended(), leading0, special, specialc, near, genword, dotted)
+    return st.one_of(python, python, extended(), extended(), leading0, special, specialc, near, genword, dotted, zradix)
 
 
 def _is_number(t):
